@@ -132,7 +132,13 @@ def cases(ctx):
         dims.append(("cutoff", 0.0, CUTOFFS))
         dims.append(("nominal", 1.0, [ctx.factor(0)]))
         dims.append(("q", "1d", ["2d"]))
+        # a NON-dispersed size parameter outside its limits (negated): nothing excludes the point, the volume may
+        # be negative, and the statement's formula still applies (seeded change C01-g2 replaced a negative mean
+        # volume by 1)
+        dims.append(("neg", None, disp_names(info, positive_only=True)[:2]))
         for k, c in deviations(dims, 2):
+            if c.get("neg") and c.get("pd:" + c["neg"]) is not None:
+                continue
             out.append({"kind": "mean", "model": m, "dev": k, "cfg": c})
         if not ctx.quick and len(names) >= 3:
             dims3 = [("pd:" + n, None, A_SMALL) for n in names]
@@ -413,6 +419,10 @@ def _run_mean(case, ctx):
     base = _defaults(info, cfg.get("nominal", 1.0), cfg.get("q", "1d"))
     spec = {}
     fk = {"model": case["model"]}
+    extra = []
+    if cfg.get("neg"):
+        base[cfg["neg"]] = -abs(base[cfg["neg"]])
+        extra.append("negated-size-parameter")
     for key, alt in cfg.items():
         if not key.startswith("pd:") or alt is None:
             continue
@@ -443,7 +453,7 @@ def _run_mean(case, ctx):
             spec[name] = (t, n, w, 3.0 if t not in ("lognormal", "schulz") else 3.0)
     if len(spec) > info.parameters.max_pd:
         return r.ok(outcome="skipped: more dispersed than loop slots")
-    _compare(r, case, m, cfg.get("q", "1d"), base, spec, cfg.get("cutoff", 0.0), fk, dtype=dtype)
+    _compare(r, case, m, cfg.get("q", "1d"), base, spec, cfg.get("cutoff", 0.0), fk, dtype=dtype, extra_branches=extra)
     return r
 
 
@@ -647,6 +657,7 @@ def finish(ctx, report):
     report.require("single-point-not-nominal", 10, "distribution truncated to one point != nominal")
     report.require("zero-point", 10, "mesh with no qualifying point")
     report.require("refusal", 1, "more dispersed parameters than loop slots")
+    report.require("negated-size-parameter", 50, "a non-dispersed size parameter outside its limits")
     report.require("point-on-a-hard-limit", 20, "a distribution point exactly on a finite hard limit")
     report.require("single-precision", 200, "single-precision builds of the dispersity loop")
     report.require("probe-decoded", 5, "visited-set probe")
